@@ -1,5 +1,5 @@
 (* C17 — message passing returns the (iterate towards the) fixed point of the motif-cover equations.
-   Property theorems only; each is closed by [exact] of a lemma of Proofs/MsgPassP.v.
+   Property theorems only; each is closed by [exact] of a lemma of Proofs/MsgPassP.v / MsgPassG.v.
 
    Objects (Model/MsgPass.v):
      net                      cover-labelled network: nodes, edges in sweep order with their motif ID, motif table
@@ -10,7 +10,8 @@
      mp_object nt T phis      one object (evaluator caches persist, _H_tau reset per query) queried with phis
      c17_checkb               the verified checker run on the implementation's floats. *)
 From Coq Require Import List ZArith QArith Bool Arith.
-From GV Require Import Lib.Tree Lib.PolyRefl15 Lib.Graph15 Model.AutoEq Proofs.AutoEqP Model.MsgPass Proofs.MsgPassP.
+From GV Require Import Lib.Tree Lib.PolyRefl15 Lib.Graph15 Model.AutoEq Proofs.AutoEqP Model.MsgPass Proofs.MsgPassP
+                       Proofs.MsgPassG.
 Import ListNotations.
 Local Open Scope Q_scope.
 
@@ -65,6 +66,36 @@ Theorem C17_model_is_spec_checked : forall nt, motifs_okb nt = true ->
     forall T phi, mp_model nt T phi == mp_spec nt T phi.
 Proof. intros nt Hm. exact (model_is_spec nt (motifs_okb_identities nt Hm)). Qed.
 Print Assumptions C17_model_is_spec_checked.
+
+(* GENERAL, UNCONDITIONAL: by the general C15 identity (C15_identity_general: every well-formed motif of
+   ANY size) that hypothesis holds for every well-formed network: swept end points are vertices of their
+   motif and every motif graph is a simple graph (net_okb, the input precondition).  No per-network
+   polynomial check and no bound on the motif size is needed any more. *)
+Theorem C17_model_is_spec_unconditional : forall nt, net_okb nt = true ->
+    forall T phi, mp_model nt T phi == mp_spec nt T phi.
+Proof. exact model_is_spec_unconditional. Qed.
+Print Assumptions C17_model_is_spec_unconditional.
+
+(* the hypothesis of C17_model_is_spec itself, discharged under exactly the two facts it needs *)
+Theorem C17_motif_identities_general : forall nt,
+    sweep_okb nt = true ->
+    (forall m, In m (n_motifs nt) -> wf_graph (motif_graph m) = true) ->
+    motif_identities nt.
+Proof. exact motif_identities_general. Qed.
+Print Assumptions C17_motif_identities_general.
+
+(* GENERAL, END TO END: one MessagePassing object queried repeatedly (its evaluator's caches persist and fill
+   up), and the extracted reduced-fraction model the implementation is compared with, return the
+   SPECIFICATION's values for every well-formed network (motifs of any size) *)
+Theorem C17_object_is_spec : forall nt T phis, net_okb nt = true ->
+    Forall2 Qeq (mp_object nt T phis) (map (mp_spec nt T) phis).
+Proof. exact object_is_spec. Qed.
+Print Assumptions C17_object_is_spec.
+
+Theorem C17_wire_model_is_spec : forall nt T phis, net_okb nt = true ->
+    Forall2 Qeq (mp_history (eqn_cached alg_qr) nt T caches_empty phis) (map (mp_spec nt T) phis).
+Proof. exact wire_model_is_spec. Qed.
+Print Assumptions C17_wire_model_is_spec.
 
 (* GENERAL: the value is a probability *)
 Theorem C17_bounds : forall nt T phi, 0 <= phi <= 1 -> n_nodes nt <> [] -> 0 <= mp_spec nt T phi <= 1.
@@ -131,6 +162,20 @@ Definition two_triangles : net :=
          [(0, 1, 7); (0, 2, 7); (1, 2, 7); (2, 3, 9); (2, 4, 9); (3, 4, 9)]%nat
          [mk_motif 7 [0; 1; 2]%nat [(0, 1); (1, 2); (0, 2)]%nat;
           mk_motif 9 [2; 3; 4]%nat [(2, 3); (3, 4); (2, 4)]%nat].
+
+(* a network with a 6-vertex motif (beyond the C15 reflection bound: a 6-cycle with a chord) and a pendant edge *)
+Definition one_big : net :=
+  mk_net [0; 1; 2; 3; 4; 5; 6]%nat
+         [(0, 1, 3); (1, 2, 3); (2, 3, 3); (3, 4, 3); (4, 5, 3); (5, 0, 3); (1, 4, 3); (0, 6, 8)]%nat
+         [mk_motif 3 [0; 1; 2; 3; 4; 5]%nat [(0, 1); (1, 2); (2, 3); (3, 4); (4, 5); (5, 0); (1, 4)]%nat;
+          mk_motif 8 [0; 6]%nat [(0, 6)]%nat].
+
+Example C17_unconditional_nonvacuous :
+  net_okb one_big = true /\ net_okb ring3 = true /\ net_okb two_triangles = true
+  /\ length (g_nodes (motif_graph (find_motif one_big 3))) = 6%nat
+  /\ Qred (mp_model one_big 1 (1 # 2)) = 289 # 1792
+  /\ Qred (mp_spec one_big 1 (1 # 2)) = 289 # 1792.
+Proof. vm_compute. repeat split; reflexivity. Qed.
 
 Example C17_nonvacuous :
   sweep_okb ring3 = true /\ motifs_okb ring3 = true /\ net_okb ring3 = true /\ n_nodes ring3 <> []
